@@ -36,6 +36,7 @@ pub const CAPTURE_SECS: i64 = 150; // includes the first key rotation (120 s) an
 /// builds the mesh, runs the capture phase with probes so that every kind of datagram appears on the wire
 fn establish(nodes: usize, stream: u64) -> (Sim<Frame>, u64) {
     let mut sim: Sim<Frame> = Sim::new(stream);
+    sim.trace_sample(stream, 40, 80_000);
     let mut cfg = base_config(Mode::Switch);
     cfg.keepalive = Some(30);
     for _ in 0..nodes {
@@ -243,5 +244,6 @@ pub fn run(tier: &str, out_path: &str) -> Value {
         t.ev(r.clone());
     }
     let events = t.finish();
-    json!({"runs": plans.len(), "steps": plans.len(), "events": events, "skipped": skipped})
+    let cloud = write_cloud_blocks(&format!("{}.cloud", out_path));
+    json!({"runs": plans.len(), "steps": plans.len(), "events": events, "skipped": skipped, "cloud_events": cloud})
 }
